@@ -1015,3 +1015,113 @@ func judgeScreenIsPrefixOfFull(s *Spec, a *Agg, body, full string) *finding {
 	}
 	return nil
 }
+
+// ---------------------------------------------------------------- heat map screen
+
+// heatColOrder: the displayed columns of a heat map in a name-based --sort-cols order (the first --cols of it).
+func heatColOrder(s *Spec, a *Agg) ([]string, bool) {
+	mode := ""
+	for i, f := range s.CmdArgs {
+		if f == "--sort-cols" && i+1 < len(s.CmdArgs) {
+			mode = s.CmdArgs[i+1]
+		}
+	}
+	cols := sortedKeys(a.cols)
+	switch mode {
+	case "text", "text:asc":
+	case "text:desc", "text:reverse":
+		for i, j := 0, len(cols)-1; i < j; i, j = i+1, j-1 {
+			cols[i], cols[j] = cols[j], cols[i]
+		}
+	default:
+		return nil, false
+	}
+	if s.Cols < 1 {
+		return nil, false
+	}
+	if len(cols) > s.Cols {
+		cols = cols[:s.Cols]
+	}
+	return cols, true
+}
+
+func heatRowsApplicable(s *Spec, a *Agg) bool {
+	return s.Cmd == "heatmap" && len(a.cols) > 0 && len(a.rows) > 0 && len(a.rows) <= s.N && s.Cols >= 1 &&
+		allPlain(sortedKeys(a.cols)) && allPlain(sortedKeys(a.rows))
+}
+
+const heatGlyphs = "-123456789" // --nocolor: one character per cell, ten levels
+
+// judgeHeatRows: the heat map screen without colour is a legend line, a header line and one line per row: the row key
+// and one level character per displayed column. Every reference row is there once, with min(columns, --cols) cells;
+// where the column order is known (--sort-cols text..) the levels are monotone in the reference cells (absent = 0): a
+// larger cell never shows a lower level, anywhere on the screen. Which level a value gets is C14's business.
+func judgeHeatRows(s *Spec, a *Agg, body string) *finding {
+	if !heatRowsApplicable(s, a) {
+		return nil
+	}
+	bad := func(f string, args ...any) *finding {
+		return &finding{"snapshot-vs-reference", fmt.Sprintf(f, args...) + "; screen " + run.Q(body)}
+	}
+	lines := strings.Split(strings.TrimSuffix(body, "\n"), "\n")
+	lines = lines[:len(lines)-1] // summary
+	if len(lines) < 2 {
+		return bad("heat map screen has no legend and header lines")
+	}
+	ncols := min(len(a.cols), s.Cols)
+	cols, ordered := heatColOrder(s, a)
+	seen := map[string]bool{}
+	type cell struct {
+		v     int64
+		level int
+		where string
+	}
+	var cells []cell
+	for _, ln := range lines[2:] {
+		f := strings.Fields(ln)
+		if len(f) == 0 {
+			continue
+		}
+		if len(f) != 2 {
+			if len(f) == 1 && ncols == 0 {
+				continue
+			}
+			return bad("heat map row %s is not 'key cells'", run.Q(ln))
+		}
+		name := f[0]
+		if seen[name] {
+			return bad("row %s is on the heat map twice", run.Q(name))
+		}
+		seen[name] = true
+		if !a.rows[name] {
+			return bad("heat map has row %s that no input line produced", run.Q(name))
+		}
+		if n := utf8.RuneCountInString(f[1]); n != ncols {
+			return bad("row %s has %d cells; %d columns are displayed (data has %d, --cols %d)", run.Q(name), n, ncols, len(a.cols), s.Cols)
+		}
+		for i, ch := range f[1] {
+			lv := strings.IndexRune(heatGlyphs, ch)
+			if lv < 0 {
+				return bad("row %s: cell %q is not one of the ten level characters", run.Q(name), ch)
+			}
+			if ordered {
+				cells = append(cells, cell{a.cells[[2]string{cols[i], name}], lv, fmt.Sprintf("(col %s, row %s)", cols[i], name)})
+			}
+		}
+	}
+	for _, r := range sortedKeys(a.rows) {
+		if !seen[r] {
+			return bad("row %s is missing from the heat map", run.Q(r))
+		}
+	}
+	sort.SliceStable(cells, func(i, j int) bool { return cells[i].v < cells[j].v })
+	for i := 1; i < len(cells); i++ {
+		if cells[i].v > cells[i-1].v && cells[i].level < cells[i-1].level {
+			return bad("cell %s holds %d and shows level %d, cell %s holds the smaller %d and shows the higher level %d", cells[i].where, cells[i].v, cells[i].level, cells[i-1].where, cells[i-1].v, cells[i-1].level)
+		}
+		if cells[i].v == cells[i-1].v && cells[i].level != cells[i-1].level {
+			return bad("cells %s and %s both hold %d but show levels %d and %d", cells[i].where, cells[i-1].where, cells[i].v, cells[i].level, cells[i-1].level)
+		}
+	}
+	return nil
+}
